@@ -13,12 +13,14 @@
 
     CuckooSet: [CuckooConcInv.dropped tr] says that the trace contains the ghost event that the model emits where
     CuckooSet::resize() falls through without re-inserting an item (the sequential defect of property C17); the
-    linearizability theorem is for traces without it, the no-duplicate theorem is unconditional. *)
+    linearizability theorem is for traces without it, the no-duplicate theorem is unconditional.  Both hold for
+    the striping and the refinable mutex policy. *)
 From Coq Require Import ZArith List String Bool.
 From LV Require Import Base.Conc Base.Events Base.Lin Spec.Specs
      Model.StripingPolicy Model.StripedConc Proofs.StripedConcSpec Proofs.StripedConcProofs
      Proofs.StripedConcRefInv Proofs.StripedConcRefProofs.
-From LV Require Model.CuckooConc Proofs.CuckooConcInv Proofs.CuckooConcProofs Proofs.CuckooConcRefInv Proofs.CuckooConcRefProofs.
+From LV Require Model.CuckooConc Proofs.CuckooConcInv Proofs.CuckooConcProofs Proofs.CuckooConcRefInv Proofs.CuckooConcRefProofs
+     Proofs.CuckooConcAll.
 Import ListNotations.
 Local Open Scope nat_scope.
 
@@ -107,25 +109,25 @@ Example C16_striped_refinable_nonvacuous :
   List.length (hist_of (fst r)) = 6.
 Proof. vm_compute. repeat split. Qed.
 
-(** ** CuckooSet, lock-striping policy (cuckoo::striping<>) *)
+(** ** CuckooSet, both mutex policies (cuckoo::striping<> and cuckoo::refinable<>) *)
 
-(** [cuckoo_linearizable], striping policy: every concurrent history of insert (with or without functor), update,
-    unlink, erase (with or without functor, erase_with), find / contains (and _with) on the model — including
-    histories in which other threads relocate items and resize the tables — is linearizable to the sequential
-    set, provided resize() never dropped an item (C17).  The statement for both policies is
-    [CuckooConcProofs.cuckoo_linearizable_statement]; the refinable policy is not proved. *)
-Theorem C16_cuckoo_linearizable_striping :
-  forall cf, CuckooConc.c_pol cf = CuckooConc.Striping -> 0 < CuckooConc.c_nl cf ->
+(** [cuckoo_linearizable]: every concurrent history of insert (with or without functor), update, unlink, erase
+    (with or without functor, erase_with), find / contains (and _with) on the model — including histories in which
+    other threads relocate items and resize the tables (and, for the refinable policy, replace the lock arrays) —
+    is linearizable to the sequential set, provided resize() never dropped an item (C17).  Proved separately for
+    the two policies ([CuckooConcProofs.v], [CuckooConcFProofs.v]) and put together in [CuckooConcAll.v]. *)
+Theorem C16_cuckoo_linearizable :
+  forall cf, 0 < CuckooConc.c_nl cf ->
   forall ths (c : Conc.config CuckooConc.G CuckooConc.V ev), Conc.reach (CuckooConc.init_cfg cf ths) c ->
     ~ CuckooConcInv.dropped (Conc.trace c) -> linearizable ISet (hist_of (Conc.trace c)).
-Proof. exact CuckooConcProofs.cuckoo_linearizable_partial. Qed.
-Print Assumptions C16_cuckoo_linearizable_striping.
+Proof. exact CuckooConcAll.cuckoo_linearizable. Qed.
+Print Assumptions C16_cuckoo_linearizable.
 
-(** [cuckoo_nodup], striping policy, unconditional: at every reachable configuration every probe set has distinct
+(** [cuckoo_nodup], unconditional, both policies: at every reachable configuration every probe set has distinct
     keys, an item is only in a probe set that its own hash selects in the current table, no key is in both
     tables — so the keys of all items of the two tables are distinct. *)
-Theorem C16_cuckoo_nodup_striping :
-  forall cf, CuckooConc.c_pol cf = CuckooConc.Striping -> 0 < CuckooConc.c_nl cf ->
+Theorem C16_cuckoo_nodup :
+  forall cf, 0 < CuckooConc.c_nl cf ->
   forall ths (c : Conc.config CuckooConc.G CuckooConc.V ev), Conc.reach (CuckooConc.init_cfg cf ths) c ->
     let g := Conc.shared c in
     (forall tb b, NoDup (keys (CuckooConcInv.T g tb b))) /\
@@ -133,8 +135,10 @@ Theorem C16_cuckoo_nodup_striping :
         CuckooConc.hsel (CuckooConc.hashes cf (fst x)) tb mod S (CuckooConc.mask g) = b) /\
     (forall b b' x y, In x (CuckooConcInv.T g 0 b) -> In y (CuckooConcInv.T g 1 b') -> fst x <> fst y) /\
     NoDup (keys (CuckooConcInv.all_items g)).
-Proof. exact CuckooConcProofs.cuckoo_nodup_partial. Qed.
-Print Assumptions C16_cuckoo_nodup_striping.
+Proof. exact CuckooConcAll.cuckoo_nodup. Qed.
+Print Assumptions C16_cuckoo_nodup.
+
+(** ** CuckooSet, lock-striping policy: the cell locks *)
 
 (** [cuckoo_cell_locks_stable]: at every reachable configuration there is an assignment [a] of (multi)sets of
     reentrant locks to the threads such that a lock word is non-zero iff some thread has the lock, no two threads
